@@ -73,6 +73,6 @@ where
           let (r, m') := DD.addExpr formula { m with sched := sched }
           let left := !m'.sched.isEmpty && (match r with | .ok _ => true | .error _ => false)
           let m' := { m' with sched := [] }
-          (ms.insert id m', showOut (r.map Res.int) ++ (if left then " SCHED-LEFT" else ""))
+          (ms.insert id m', showOut (r.map DRes.int) ++ (if left then " SCHED-LEFT" else ""))
 
 end DD
